@@ -7,7 +7,15 @@ import tempfile
 
 HERE = os.path.dirname(os.path.abspath(__file__))
 ORDER = ["ShroudLenTrim", "ShroudStrCopy", "ShroudStrBlankFill", "ShroudStrAlloc", "ShroudStrFree",
-         "ShroudStrArrayAlloc", "ShroudStrArrayFree"]
+         "ShroudStrArrayAlloc", "ShroudStrArrayFree", "capsule_data_helper", "array_context", "@destructor", "copy_string", "copy_array"]
+# stand-in for the generated {C_memory_dtor_function}: counts the releases
+DTOR = """
+static int n_released = 0; static void *last_released = 0;
+#ifdef __cplusplus
+extern "C"
+#endif
+void LIB_SHROUD_memory_destructor(LIB_SHROUD_capsule_data *cap) { n_released++; last_released = (void *) cap; }
+"""
 
 
 def clean(src):
@@ -25,6 +33,9 @@ def run(tabs, timeout=300):
         try:
             parts, have = [], []
             for name in ORDER:
+                if name == "@destructor":
+                    parts.append(DTOR)
+                    continue
                 h = t["CHelpers"].get(name)
                 if not h:
                     continue
